@@ -208,9 +208,18 @@ def showMisc (m : MiscPrinted) : String :=
      | none => "-"
      | some fs => "=" ++ Proto.joinWith "," (fs.map fun (i, o, z) => s!"{i}:{o}:{z}"))
 
+def showMapsOut (m : MapsOut) : String :=
+  "ok [" ++ Proto.joinWith ";" (m.maps.entries.map Encode.showMapEntry) ++ "]|" ++
+    Proto.joinWith "," (m.probes.map fun (a, r) => match r with
+      | none => s!"{a}:~"
+      | some i => s!"{a}:{i}")
+
 def showMore (x : More) : String :=
   Proto.joinWith " | " [
-    "misc:" ++ showRes showMisc x.misc]
+    "misc:" ++ showRes showMisc x.misc,
+    "maps:" ++ (match x.maps with
+      | .error site => "PANIC:" ++ mapsPanicClass site
+      | .ok r => showRes showMapsOut r)]
 
 def renderWhole (r : M (Except Err Whole)) : Option String :=
   match r.res with
